@@ -348,6 +348,9 @@ def report(prop, res):
         mach.append("TLC failed on SchedulerHist: " + res["conformance"]["errors"][0][-400:])
     if res["explore"]["anomaly_count"]:
         mach.append(f'controller anomalies: {res["explore"]["anomalies"][:3]}')
+    if res["explore"]["nondeterministic_replays"] > max(5, res["explore"]["runs"] // 100):
+        mach.append(f'{res["explore"]["nondeterministic_replays"]} of {res["explore"]["runs"]} schedule replays did not follow their script '
+                    "(the controller does not own the scheduling nondeterminism on this machine)")
     invs = set(MODEL_INV.get(prop, []))
     mruns = [m for m in res["model"] if invs & set(m["invariants"] + m["properties"]) or (prop == "C08" and m["expect"])]
     for m in mruns:
